@@ -777,8 +777,14 @@ class ExcelCompiler:
                 # the reference depends on the range it resolves to
                 add_node_to_graph(self.cell_map[str(address)])
 
-            self.range_todos.append(str(excel_data.address))
-            new_nodes = build_range(excel_data)
+            if excel_data.address.is_range:
+                self.range_todos.append(str(excel_data.address))
+                new_nodes = build_range(excel_data)
+            elif str(excel_data.address) not in self.cell_map:
+                # an unbounded range can be bound to a single cell
+                new_nodes = build_cell(excel_data)
+            else:
+                new_nodes = []
         else:
             new_nodes = build_cell(excel_data)
 
